@@ -336,8 +336,16 @@ class Ctx:
                 if keys:
                     cands.append((i, sorted(keys)))
             rng.shuffle(cands)
+            # one event of every kind first (logs are dominated by a few kinds)
+            byop, order = {}, []
+            for i, keys in cands:
+                byop.setdefault(json.loads(prefix[i]).get("op"), []).append((i, keys))
+            while len(order) < 6 and any(byop.values()):
+                for op in sorted(byop):
+                    if byop[op] and len(order) < 6:
+                        order.append(byop[op].pop())
             details = []
-            for i, keys in cands[:6]:
+            for i, keys in order:
                 e = json.loads(prefix[i])
                 k = keys[rng.randrange(len(keys))]
                 v = e[k]
